@@ -114,13 +114,12 @@ func Map(page mm.Page, frame mm.Frame, flags PageTableEntryFlag) *kernel.Error {
 // mapping and returns back the Page that corresponds to the region start.
 func MapRegion(frame mm.Frame, size uintptr, flags PageTableEntryFlag) (mm.Page, *kernel.Error) {
 	// Reserve next free block in the address space
-	size = (size + (mm.PageSize - 1)) & ^(mm.PageSize - 1)
 	startPage, err := earlyReserveRegionFn(size)
 	if err != nil {
 		return 0, err
 	}
 
-	pageCount := size >> mm.PageShift
+	pageCount := pagesFor(size)
 	for page := mm.PageFromAddress(startPage); pageCount > 0; pageCount, page, frame = pageCount-1, page+1, frame+1 {
 		if err := mapFn(page, frame, flags); err != nil {
 			return 0, err
@@ -137,7 +136,7 @@ func MapRegion(frame mm.Frame, size uintptr, flags PageTableEntryFlag) (mm.Page,
 // start.
 func IdentityMapRegion(startFrame mm.Frame, size uintptr, flags PageTableEntryFlag) (mm.Page, *kernel.Error) {
 	startPage := mm.Page(startFrame)
-	pageCount := mm.Page(((size + (mm.PageSize - 1)) & ^(mm.PageSize - 1)) >> mm.PageShift)
+	pageCount := mm.Page(pagesFor(size))
 
 	for curPage := startPage; curPage < startPage+pageCount; curPage++ {
 		if err := mapFn(curPage, mm.Frame(curPage), flags); err != nil {
@@ -146,6 +145,16 @@ func IdentityMapRegion(startFrame mm.Frame, size uintptr, flags PageTableEntryFl
 	}
 
 	return startPage, nil
+}
+
+// pagesFor returns the number of pages required to hold size bytes without
+// overflowing for sizes close to the top of the address space.
+func pagesFor(size uintptr) uintptr {
+	pages := size >> mm.PageShift
+	if size&(mm.PageSize-1) != 0 {
+		pages++
+	}
+	return pages
 }
 
 // MapTemporary establishes a temporary RW mapping of a physical mmory frame
